@@ -404,7 +404,8 @@ ASMJIT_FAVOR_SIZE Error init_func_detail(FuncDetail& func, const FuncSignature& 
               vec_pos++;
             }
             else {
-              uint32_t size = TypeUtils::size_of(type_id);
+              // Each stack argument occupies a whole number of stack slots (4 bytes in 32-bit mode, 8 in 64-bit mode).
+              uint32_t size = Support::align_up(TypeUtils::size_of(type_id), register_size);
               arg.assign_stack_offset(int32_t(stack_offset));
               stack_offset += size;
             }
